@@ -40,6 +40,10 @@ pub enum TOp {
     NodeCmp { u: usize, v: usize },
     /// `for e in &node`
     IterInto { u: usize },
+    /// the whole `Path` API on the result of a path / cycle search
+    PathInfo { root: usize, spec: crate::model::SearchSpec },
+    /// replace the container by `Graph::default()` / `with_capacity` holding the same members
+    Recreate { capacity: Option<usize> },
 }
 
 #[derive(Clone, Debug, Serialize, Deserialize)]
@@ -164,9 +168,11 @@ fn exec<F: Flavour>(w: &mut World<F>, op: &TOp) -> Obs {
                         .iter()
                         .map(|(k, n)| {
                             let (mut o, mut i) = World::<F>::lists_of(n);
+                            // the order of a copy's incoming list follows the container order of
+                            // the serialising side ("up to container order")
+                            i.sort();
                             if !F::DIRECTED {
                                 o.sort();
-                                i.sort();
                             }
                             (*k, F::prio(n), o, i)
                         })
@@ -191,6 +197,25 @@ fn exec<F: Flavour>(w: &mut World<F>, op: &TOp) -> Obs {
             Some(a) => Obs::Edges(vec![F::edge_reverse(&a)]),
             None => Obs::Unit,
         },
+        TOp::PathInfo { root, spec } => match F::path_info(&w.nodes[*root], spec) {
+            Some(t) => Obs::Text(t),
+            None => Obs::Unit,
+        },
+        TOp::Recreate { capacity } => {
+            let members = F::g_to_vec(w.graph.as_ref().unwrap());
+            // with_capacity exists on one side only (outside the property), and a different
+            // capacity would give the two sides different container orders: both sides use default()
+            let _ = capacity;
+            let mut g = F::g_default();
+            let mut keys: Vec<usize> = members.iter().map(|n| F::key(n)).collect();
+            keys.sort();
+            for k in &keys {
+                let n = members.iter().find(|n| F::key(n) == *k).unwrap().clone();
+                F::g_insert(&mut g, n);
+            }
+            w.graph = Some(g);
+            Obs::Keys(keys)
+        }
         TOp::IterInto { u } => {
             let mut v = Vec::new();
             F::for_into(&w.nodes[*u], &mut |a, b, e| {
@@ -290,8 +315,29 @@ impl Engine for Twin {
                 86..=88 => TOp::Serialise { wire },
                 89..=91 => TOp::RoundTrip { wire },
                 92..=95 => TOp::EdgeEq { u: rng.below(n), i: rng.below(3), v: rng.below(n), j: rng.below(3) },
-                96 => TOp::EdgeReverse { u: rng.below(n), i: rng.below(3) },
-                97 => TOp::IterInto { u: rng.below(n) },
+                96 => {
+                    if rng.coin() {
+                        TOp::EdgeReverse { u: rng.below(n), i: rng.below(3) }
+                    } else {
+                        TOp::Recreate { capacity: if rng.coin() { Some(rng.below(64)) } else { None } }
+                    }
+                }
+                97 => {
+                    if rng.coin() {
+                        TOp::IterInto { u: rng.below(n) }
+                    } else {
+                        let mut spec = gen::gen_search_spec(rng, &m, false);
+                        if matches!(spec.kind, crate::model::SKind::Pre | crate::model::SKind::Post) {
+                            spec.kind = crate::model::SKind::Bfs;
+                        }
+                        spec.mode = if rng.chance(1, 3) { crate::model::SMode::Cycle } else { crate::model::SMode::Path };
+                        spec.target = if spec.mode == crate::model::SMode::Cycle { None } else { Some(rng.below(n)) };
+                        if !directed {
+                            spec.transpose = false;
+                        }
+                        TOp::PathInfo { root: rng.below(n), spec }
+                    }
+                }
                 _ => TOp::NodeCmp { u: rng.below(n), v: rng.below(n) },
             };
             ops.push(op);
@@ -378,6 +424,7 @@ impl Engine for Twin {
                     TOp::Remove { k: x } | TOp::Get { k: x } | TOp::Index { k: x } | TOp::Contains { k: x } => *x == k,
                     TOp::EdgeEq { u, v, .. } | TOp::NodeCmp { u, v } => *u == k || *v == k,
                     TOp::EdgeReverse { u, .. } | TOp::IterInto { u } => *u == k,
+                    TOp::PathInfo { root, spec } => *root == k || spec.target == Some(k),
                     _ => false,
                 });
             if !used {
